@@ -23,6 +23,12 @@ Proof.
   - apply in_map_iff in Hin. destruct Hin as (y & Hy & _). discriminate.
 Qed.
 
+(* a plan-walk message: the original request *)
+Definition plan_msg (m : mkind) (c : cause) : Prop := c = CPlan /\ exists cl, m = MOrig cl.
+
+Lemma walk_sent_planmsg p s b s' ev h m c : walk s p b = (s', ev) -> In (Sent h m c) ev -> plan_msg m c.
+Proof. intros W Hin. destruct (walk_sent_cplan _ _ _ _ _ _ _ _ W Hin) as (A & B & _). split; [exact A|eexists; exact B]. Qed.
+
 Lemma query_sent s h m c s' ev ok h' m' c' : query s h m c = (s', ev, ok) -> In (Sent h' m' c') ev ->
   h' = h /\ m' = m /\ c' = c /\ pool_of s h = PHealthy.
 Proof.
@@ -32,7 +38,7 @@ Proof.
 Qed.
 
 Lemma qon_sent s h m c s' ev h' m' c' : query_or_next s h m c = (s', ev) -> In (Sent h' m' c') ev ->
-  (h' = h /\ m' = m /\ c' = c /\ pool_of s h = PHealthy) \/ c' = CPlan.
+  (h' = h /\ m' = m /\ c' = c /\ pool_of s h = PHealthy) \/ plan_msg m' c'.
 Proof.
   unfold query_or_next. intros H Hin. destruct (query s h m c) as [[s1 ev1] ok] eqn:Q.
   destruct ok.
@@ -40,7 +46,7 @@ Proof.
   - destruct (send_request s1 true) as [s2 ev2] eqn:W. inversion H; subst.
     apply in_app_iff in Hin. destruct Hin as [Hin|Hin].
     + left. eapply query_sent; eauto.
-    + right. unfold send_request in W. eapply walk_sent_cplan in W; eauto. tauto.
+    + right. unfold send_request in W. eapply walk_sent_planmsg; eauto.
 Qed.
 
 Lemma set_result_no_sent c s h r s' ev h' m' c' : set_result c s h r = (s', ev) -> ~ In (Sent h' m' c') ev.
@@ -60,13 +66,13 @@ Definition task_sends (s : state) (t : task) (h : host) (m : mkind) (c : cause) 
   end.
 
 Lemma after_prepare_sent c s h r s' ev h' m' c' : after_prepare c s h r = (s', ev) -> In (Sent h' m' c') ev ->
-  c' = CPlan \/ (task_sends s (TAfterPrepare h r) h' m' c' /\ pool_of s h = PHealthy).
+  plan_msg m' c' \/ (task_sends s (TAfterPrepare h r) h' m' c' /\ pool_of s h = PHealthy).
 Proof.
   unfold after_prepare. intros H Hin.
   destruct (is_some (fin_exc s)); [inversion H; subst; destruct Hin|].
   destruct r; try (inversion H; subst; destruct Hin; fail).
   - assert (G : forall s2 e2, query_or_next s h (MOrig (msg_cl s)) CResend = (s2, e2) -> In (Sent h' m' c') e2 ->
-                c' = CPlan \/ (task_sends s (TAfterPrepare h (RPrepared id)) h' m' c' /\ pool_of s h = PHealthy)).
+                plan_msg m' c' \/ (task_sends s (TAfterPrepare h (RPrepared id)) h' m' c' /\ pool_of s h = PHealthy)).
     { intros s2 e2 Q Hi. destruct (qon_sent _ _ _ _ _ _ _ _ _ Q Hi) as [(E1 & E2 & E3 & Hp)|E4]; subst; cbn; auto. }
     destruct (fut_ps c) as [[[pid pqs] pks]|].
     + destruct (negb (pid =? id)); [inversion H; subst; destruct Hin|]. eapply G; eauto.
@@ -74,45 +80,45 @@ Proof.
   - destruct (is_conn_kind k).
     + destruct (send_request (set_err s h (EResp k tag)) true) as [s2 ev2] eqn:W. inversion H; subst.
       destruct Hin as [Hin|Hin]; [discriminate|]. left.
-      unfold send_request in W. eapply walk_sent_cplan in W; eauto. tauto.
+      unfold send_request in W. eapply walk_sent_planmsg; eauto.
     + inversion H; subst. destruct Hin.
 Qed.
 
 Lemma run_task_sent c s t s' ev h' m' c' : run_task c s t = (s', ev) -> In (Sent h' m' c') ev ->
-  c' = CPlan \/ (task_sends s t h' m' c' /\ pool_of s (task_host t) = PHealthy).
+  plan_msg m' c' \/ (task_sends s t h' m' c' /\ pool_of s (task_host t) = PHealthy).
 Proof.
   intros H Hin. destruct t as [reuse h|h qs ks|h r]; cbn [run_task] in H.
   - destruct (is_some (fin_exc s)); [inversion H; subst; destruct Hin|].
     destruct reuse.
     + destruct (qon_sent _ _ _ _ _ _ _ _ _ H Hin) as [(E1 & E2 & E3 & Hp)|E4]; subst; cbn; auto.
-    + left. unfold send_request in H. eapply walk_sent_cplan in H; eauto. tauto.
+    + left. unfold send_request in H. eapply walk_sent_planmsg; eauto.
   - destruct (qon_sent _ _ _ _ _ _ _ _ _ H Hin) as [(E1 & E2 & E3 & Hp)|E4]; subst; cbn; auto.
   - eapply after_prepare_sent; eauto.
 Qed.
 
-Lemma spec_fire_sent s s' ev h m c : spec_fire s = (s', ev) -> In (Sent h m c) ev -> c = CPlan.
+Lemma spec_fire_sent s s' ev h m c : spec_fire s = (s', ev) -> In (Sent h m c) ev -> plan_msg m c.
 Proof.
   unfold spec_fire. intros H Hin.
   destruct (negb (spec_armed s)); [inversion H; subst; destruct Hin|].
   destruct (completed (set_spec s false (spec_left s))); [inversion H; subst; destruct Hin|].
   destruct (attempts (set_spec s false (spec_left s))); [inversion H; subst; destruct Hin|].
   destruct (send_request (set_spec s false (spec_left s)) false) as [s1 ev1] eqn:W. inversion H; subst.
-  unfold send_request in W. eapply walk_sent_cplan in W; eauto. tauto.
+  unfold send_request in W. eapply walk_sent_planmsg; eauto.
 Qed.
 
 (* every message of a step is a plan send, or the message of the executor task that was run *)
 Theorem step_sent c s o s' ev h m cz : step c s o = (s', ev) -> In (Sent h m cz) ev ->
-  cz = CPlan \/ exists k t, o = Run k /\ nth_error (queue s) k = Some t /\ task_sends s t h m cz
+  plan_msg m cz \/ exists k t, o = Run k /\ nth_error (queue s) k = Some t /\ task_sends s t h m cz
                             /\ pool_of s (task_host t) = PHealthy.
 Proof.
   intros H Hin. destruct o as [|i r|k| |h0 p|k]; cbn [step] in H.
-  - left. unfold send_request in H. eapply walk_sent_cplan in H; eauto. tauto.
+  - left. unfold send_request in H. eapply walk_sent_planmsg; eauto.
   - destruct (nth_error (attempts s) i) as [a|]; [|inversion H; subst; destruct Hin].
     destruct (a_done a); [inversion H; subst; destruct Hin|].
     destruct (a_prep a); [inversion H; subst; destruct Hin|].
     exfalso. eapply set_result_no_sent; eauto.
   - destruct (nth_error (queue s) k) as [t|] eqn:N; [|inversion H; subst; destruct Hin].
-    destruct (run_task_sent _ _ _ _ _ _ _ _ H Hin) as [->|[T P]]; auto.
+    destruct (run_task_sent _ _ _ _ _ _ _ _ H Hin) as [E|[T P]]; auto.
     right. exists k, t. repeat split; auto.
   - left. eapply spec_fire_sent; eauto.
   - inversion H; subst. destruct Hin.
